@@ -290,6 +290,48 @@ Definition iinequal (h : heap) (id cmp : ident) : res sign :=
     do b <- idata h cmp;
     Ok (memcmp a b).
 
+(* ---------- mpt++/identifier.cpp: class identifier ----------
+   Every member is a forward to the C functions above; the model entry points
+   are therefore compositions of the operations above and add nothing to the
+   cell/heap mechanism. *)
+Definition SIZEOF_IDENT := 16.           (* sizeof(identifier) on LP64 *)
+
+(* identifier::identifier(size_t total): mpt_identifier_init(this, total);
+   the caller vouches for [total] bytes of storage behind [this] *)
+Definition xinit (total : nat) : option ident := ident_init total.
+
+(* identifier::identifier(const identifier &id):
+   mpt_identifier_init(this, sizeof( *this)); mpt_identifier_copy(this, &id) *)
+Definition xcopy_init (h : heap) (from : ident) : res (heap * ident * bool) :=
+  match ident_init SIZEOF_IDENT with
+  | Some fresh => icopy h fresh from
+  | None => Fault
+  end.
+
+(* identifier::~identifier(): set_name(0, 0) *)
+Definition xfini (h : heap) (id : ident) : res (heap * ident * bool) :=
+  iset h id None (Some 0).
+
+(* bool identifier::set_name(name, nlen): mpt_identifier_set(...) ? true : false *)
+Definition xset_name (h : heap) (id : ident) (name : option (list byte)) (len : option nat)
+  : res (heap * ident * bool) := iset h id name len.
+
+(* bool identifier::equal(name, nlen): mpt_identifier_compare(...) ? false : true *)
+Definition xequal (h : heap) (id : ident) (name : option (list byte)) (nlen : option nat) : res bool :=
+  do c <- icompare h id name nlen;
+  Ok (match c with CEq => true | _ => false end).
+
+(* const char *identifier::name(): NULL unless _charset == UTF8, else
+   mpt_identifier_data(this); the result is the [_len] bytes behind that address *)
+Definition xname (h : heap) (id : ident) : res (option (list byte)) :=
+  if negb (N.eqb (ics id) CS_UTF8) then Ok None
+  else do d <- idata h id; Ok (Some d).
+
+(* identifier &identifier::operator=(const identifier &id), this != &id:
+   mpt_identifier_copy(this, &id); the result of the copy is dropped *)
+Definition xassign (h : heap) (id from : ident) : res (heap * ident) :=
+  do '(h', id', _) <- icopy h id from; Ok (h', id').
+
 (* ---------- a world: several identifiers sharing one heap ---------- *)
 Record world := mkw { wh : heap; wids : list ident }.
 
@@ -306,13 +348,21 @@ Inductive op :=
 | OCompare (i : nat) (name : option (list byte)) (nlen : option nat)
 | OInequal (i j : nat)
 | ONew (len : nat)
-| ONode (len : nat).
+| ONode (len : nat)
+(* members of the C++ class identifier (mpt++/identifier.cpp) *)
+| OXSet (i : nat) (name : option (list byte)) (len : option nat)      (* set_name *)
+| OXEqual (i : nat) (name : option (list byte)) (nlen : option nat)   (* equal *)
+| OXName (i : nat)                                                    (* name *)
+| OXAssign (i j : nat)                                                (* operator= *)
+| OXCtor (i j : nat)     (* the object in slot i is destroyed, a copy-constructed object takes its place *)
+| OXNew (i total : nat). (* the object in slot i is destroyed, identifier(total) takes its place *)
 
 Inductive out :=
 | ODone | ORefused
 | OCmp (c : cmpres) | OEq (b : bool)
 | OSign (s : sign)
 | OMax (m : option nat)
+| OName (d : option (list byte))
 | OFault.
 
 Definition lift_set (w : world) (i : nat) (r : res (heap * ident * bool)) : res (world * out) :=
@@ -355,6 +405,46 @@ Definition mstep (w : world) (o : op) : res (world * out) :=
                  end))
   | ONode len =>
     Ok (w, OMax (match ident_init (node_ident_size len) with Some id => Some (imax id) | None => None end))
+  | OXSet i name len =>
+    match nth_error (wids w) i with
+    | Some id => lift_set w i (xset_name (wh w) id name len)
+    | None => Ok (w, ORefused)
+    end
+  | OXEqual i name nlen =>
+    match nth_error (wids w) i with
+    | Some id => do b <- xequal (wh w) id name nlen; Ok (w, OEq b)
+    | None => Ok (w, ORefused)
+    end
+  | OXName i =>
+    match nth_error (wids w) i with
+    | Some id => do d <- xname (wh w) id; Ok (w, OName d)
+    | None => Ok (w, ORefused)
+    end
+  | OXAssign i j =>
+    match nth_error (wids w) i, nth_error (wids w) j with
+    | Some id, Some from =>
+      if i =? j then (let _ := icopy_self id in Ok (w, ODone))
+      else do '(h, id') <- xassign (wh w) id from;
+           Ok (mkw h (set_nth (wids w) i id'), ODone)
+    | _, _ => Ok (w, ORefused)
+    end
+  | OXCtor i j =>
+    match nth_error (wids w) i, nth_error (wids w) j with
+    | Some id, Some from =>
+      if i =? j then Ok (w, ORefused)
+      else
+        do '(h1, _, _) <- xfini (wh w) id;            (* the old object of the slot is destroyed *)
+        do '(h2, id', _) <- xcopy_init h1 from;       (* a new one is copy-constructed on 16 bytes *)
+        Ok (mkw h2 (set_nth (wids w) i id'), ODone)
+    | _, _ => Ok (w, ORefused)
+    end
+  | OXNew i total =>
+    match nth_error (wids w) i, xinit total with
+    | Some id, Some fresh =>
+      do '(h1, _, _) <- xfini (wh w) id;
+      Ok (mkw h1 (set_nth (wids w) i fresh), ODone)
+    | _, _ => Ok (w, ORefused)
+    end
   end.
 
 (* what is observed of a world: (len, charset, bytes) of every identifier, number of live blocks *)
